@@ -469,9 +469,38 @@ func Run(s *simrt.Sim) {
 			sessionsOK := st.TCPSessions == uint64(okConns) || (chain && st.TCPSessions >= uint64(okConns) && st.TCPSessions <= uint64(nConn))
 			return sessionsOK && st.UplinkBytes >= wantUp && st.UplinkBytes <= wantUp+slackUp && st.DownlinkBytes == wantDown
 		}
+		userOK := func(name string) (*stats.User, bool) {
+			var got *stats.User
+			for i := range st.Users {
+				if st.Users[i].Name == name {
+					got = &st.Users[i]
+				}
+			}
+			var slack uint64
+			if chain {
+				for _, sc := range scs {
+					if sc.fail != "" && sp.UserName(sc.user) == name {
+						slack += uint64(sc.pLen)
+					}
+				}
+			}
+			return got, got != nil && got.UplinkBytes >= perUserUp[name] && got.UplinkBytes <= perUserUp[name]+slack && got.DownlinkBytes == perUserDown[name]
+		}
+		usersOK := func() bool {
+			for name := range perUserUp {
+				if name == "" {
+					continue
+				}
+				if _, ok := userOK(name); !ok {
+					return false
+				}
+			}
+			return true
+		}
 		// The relay records a session after both copy directions ended, which may be after the
-		// client has seen its last byte: poll until the totals are the delivered ones; what is
-		// judged is the state they settle in.
+		// client has seen its last byte: poll until totals and per-user figures are the delivered
+		// ones (the slack of a failed chained connection alone can satisfy the totals before a good
+		// connection has been recorded); what is judged is the state they settle in.
 		for try := 0; try < 50; try++ {
 			code, body, err := e.API("GET", "/servers/in/stats", "")
 			if err != nil || code != 200 {
@@ -483,7 +512,7 @@ func Run(s *simrt.Sim) {
 				s.Fail("c13.api-error", "stats JSON: %v in %q", err, body)
 				return
 			}
-			if totalsOK() {
+			if totalsOK() && usersOK() {
 				break
 			}
 			s.Sleep(100 * time.Millisecond)
@@ -501,21 +530,7 @@ func Run(s *simrt.Sim) {
 			if name == "" {
 				continue
 			}
-			var got *stats.User
-			for i := range st.Users {
-				if st.Users[i].Name == name {
-					got = &st.Users[i]
-				}
-			}
-			var slack uint64
-			if chain {
-				for _, sc := range scs {
-					if sc.fail != "" && sp.UserName(sc.user) == name {
-						slack += uint64(sc.pLen)
-					}
-				}
-			}
-			if got == nil || got.UplinkBytes < perUserUp[name] || got.UplinkBytes > perUserUp[name]+slack || got.DownlinkBytes != perUserDown[name] {
+			if got, ok := userOK(name); !ok {
 				s.Fail("c13.stats-mismatch{user}", "user %q moved uplink=%d downlink=%d but the server reports %+v", name, perUserUp[name], perUserDown[name], got)
 				return
 			}
